@@ -2165,33 +2165,36 @@ coap_read_session(coap_context_t *ctx, coap_session_t *session, coap_tick_t now)
              session->proto == COAP_PROTO_WSS) {
     ssize_t bytes_read = 0;
 
-    /* WebSocket layer passes us the whole packet */
-    bytes_read = session->sock.lfunc[COAP_LAYER_SESSION].l_read(session,
-                                                                packet->payload,
-                                                                packet->length);
-    if (bytes_read < 0) {
-      coap_session_disconnected_lkd(session, COAP_NACK_NOT_DELIVERABLE);
-    } else if (bytes_read > 2) {
-      coap_pdu_t *pdu;
+    do {
+      /* WebSocket layer passes us the whole packet */
+      bytes_read = session->sock.lfunc[COAP_LAYER_SESSION].l_read(session,
+                                                                  packet->payload,
+                                                                  packet->length);
+      if (bytes_read < 0) {
+        coap_session_disconnected_lkd(session, COAP_NACK_NOT_DELIVERABLE);
+      } else if (bytes_read > 2) {
+        coap_pdu_t *pdu;
 
-      session->last_rx_tx = now;
-      /* Need max space incase PDU is updated with updated token etc. */
-      pdu = coap_pdu_init(0, 0, 0, coap_session_max_pdu_rcv_size(session));
-      if (!pdu) {
-        return;
-      }
+        session->last_rx_tx = now;
+        /* Need max space incase PDU is updated with updated token etc. */
+        pdu = coap_pdu_init(0, 0, 0, coap_session_max_pdu_rcv_size(session));
+        if (!pdu) {
+          return;
+        }
 
-      if (!coap_pdu_parse(session->proto, packet->payload, bytes_read, pdu)) {
-        coap_handle_event_lkd(session->context, COAP_EVENT_BAD_PACKET, session);
-        coap_log_warn("discard malformed PDU\n");
+        if (!coap_pdu_parse(session->proto, packet->payload, bytes_read, pdu)) {
+          coap_handle_event_lkd(session->context, COAP_EVENT_BAD_PACKET, session);
+          coap_log_warn("discard malformed PDU\n");
+        } else {
+          coap_dispatch(ctx, session, pdu);
+        }
         coap_delete_pdu(pdu);
-        return;
       }
-
-      coap_dispatch(ctx, session, pdu);
-      coap_delete_pdu(pdu);
-      return;
-    }
+      /*
+       * The WebSocket layer reads ahead: further complete frames may already
+       * be held there, and no new data has to arrive for them to be seen.
+       */
+    } while (bytes_read > 0 && coap_netif_available(session));
   } else {
     ssize_t bytes_read = 0;
     const uint8_t *p;
